@@ -172,12 +172,12 @@ RevisionsBegin(s) ==
     \/ \E deps \in OneDep, sf \in SF : BeginFund(s, deps, sf, "ok")
     \/ \E a \in Accounts, t \in Amts, cf \in CF : BeginRepl(s, "accts", <<a>>, t, cf, "ok")
     \/ \E p \in Pools, t \in Amts, cf \in CF : BeginRepl(s, "pools", <<p>>, t, cf, "ok")
-    \/ \E kind \in RenewKinds, pf \in PF, cf \in CF, rf \in {"ok", "bad"} : BeginRenew(s, kind, pf, cf, rf, Allowance, Collateral)
+    \/ \E kind \in RenewKinds, pf \in PF, cf \in CF, rf \in {"ok", "bad", "poolbad"} : BeginRenew(s, kind, pf, cf, rf, Allowance, Collateral)
 RevisionsRound2(s) ==
     \/ \E sf \in SF : Round2Free(s, sf)
     \/ \E sf \in SF : Round2Append(s, sf)
     \/ \E sf \in SF : Round2Repl(s, sf)
-    \/ \E sf \in SF : Round2Renew(s, sf, XOf(sess[s].kind, sess[s].coll))
+    \/ \E sf \in SF \cup {"badinput"} : Round2Renew(s, sf, XOf(sess[s].kind, sess[s].coll))
 
 \* Leg R, second renter: a few honest requests racing the first renter's exchange
 SmallBegin(s) ==
